@@ -139,6 +139,11 @@ Proof.
     destruct (Dist.Send.send_frame 0 [] _); cbn in H; congruence.
   - cbn in H. congruence.
   - rewrite Hc in H. cbn [fst] in H. rewrite on_frame_connected in H. congruence.
+  - unfold remote_write in H. rewrite Hc in H. destruct (Dist.Send.send_frame 0 [] o); cbn in H; congruence.
+  - rewrite Hc in H. unfold remote_write in H. cbn [with_refctr n_connected] in H. rewrite Hc in H.
+    destruct (Dist.Send.send_frame 0 [] _); cbn in H; congruence.
+  - unfold make_reference in H. destruct (make_ref (n_refctr st)). unfold remote_write in H. cbn [with_refctr n_connected] in H. rewrite Hc in H.
+    destruct (Dist.Send.send_frame 0 [] _); cbn in H; congruence.
 Qed.
 
 (* a tick, a frame with a foreign marker, an undecodable control term, a term that is no control tuple: the node's
@@ -392,6 +397,11 @@ Proof.
   - destruct (n_connected st); cbn [fst]; [now apply on_frame_rpc_inv|exact Hinv].
   - eapply rpc_inv_ext; [|exact Hinv]; reflexivity.
   - eapply rpc_inv_ext; [|exact Hinv]; reflexivity.
+  - eapply rpc_inv_ext; [|exact Hinv]. unfold remote_write. destruct (n_connected st); [destruct (Dist.Send.send_frame 0 [] o)|]; reflexivity.
+  - eapply rpc_inv_ext; [|exact Hinv]. destruct (n_connected st) eqn:Ec; [|reflexivity]. unfold remote_write. cbn [with_refctr n_connected]. rewrite Ec.
+    destruct (Dist.Send.send_frame 0 [] _); reflexivity.
+  - eapply rpc_inv_ext; [|exact Hinv]. unfold make_reference. destruct (make_ref (n_refctr st)). unfold remote_write. cbn [with_refctr n_connected].
+    destruct (n_connected st); [destruct (Dist.Send.send_frame 0 [] _)|]; reflexivity.
 Qed.
 
 (* once every call has returned nothing is left in the table *)
@@ -454,6 +464,11 @@ Proof.
   - destruct (n_connected st); cbn [fst]; [rewrite on_frame_alloc|]; lia.
   - cbn [fst disconnect n_alloc]. lia.
   - cbn [fst disconnect n_alloc]. lia.
+  - unfold remote_write. destruct (n_connected st); [destruct (Dist.Send.send_frame 0 [] o)|]; cbn [fst with_wrote n_alloc]; lia.
+  - destruct (n_connected st) eqn:Ec; [|cbn [fst]; lia]. unfold remote_write. cbn [with_refctr n_connected]. rewrite Ec.
+    destruct (Dist.Send.send_frame 0 [] _); cbn [fst with_wrote with_refctr n_alloc]; lia.
+  - unfold make_reference. destruct (make_ref (n_refctr st)). unfold remote_write. cbn [with_refctr n_connected].
+    destruct (n_connected st); [destruct (Dist.Send.send_frame 0 [] _)|]; cbn [fst with_wrote with_refctr n_alloc]; lia.
 Qed.
 
 Theorem rpc_inv_run cfg : forall ops st, rpc_inv st ->
@@ -587,3 +602,27 @@ Proof. intros H. cbn [step]. unfold deliver. now rewrite H. Qed.
 Theorem send_name_is_send cfg st name p msg : lookup_name name (n_names st) = Some p ->
   step cfg st (OSendName name msg) = step cfg st (OSend p msg).
 Proof. intros H. cbn [step]. now rewrite H. Qed.
+
+(* ---------- operations toward a process on the connected node ---------- *)
+(* Node::send / link / demonitor with a remote pid: exactly the frame the connection-level operation writes (C07), or
+   an error and nothing written; local processes, names and outstanding calls are untouched *)
+Theorem remote_op_one_frame cfg st o :
+  (n_connected st = true -> forall f, Dist.Send.send_frame 0 [] o = Some f ->
+     step cfg st (ORemote o) = (with_wrote st (n_wrote st ++ [f]), UOk)) /\
+  (n_connected st = false \/ Dist.Send.send_frame 0 [] o = None -> step cfg st (ORemote o) = (st, UErr)).
+Proof.
+  cbn [step]. unfold remote_write. split.
+  - intros Hc f Hf. now rewrite Hc, Hf.
+  - intros [Hc|Hf]; [now rewrite Hc|]. rewrite Hf. now destruct (n_connected st).
+Qed.
+
+(* Node::unlink toward a remote process: the unlink id is the current value of the node's reference counter, which
+   advances, so successive unlinks carry different ids *)
+Theorem remote_unlink_ids cfg st a b : n_connected st = true ->
+  forall f, Dist.Send.send_frame 0 [] (Dist.Send.SUnlink a b (n_refctr st)) = Some f ->
+  n_wrote (fst (step cfg st (ORemoteUnlink a b))) = n_wrote st ++ [f] /\
+  n_refctr (fst (step cfg st (ORemoteUnlink a b))) = (n_refctr st + 1) mod 4294967296.
+Proof.
+  intros Hc f Hf. cbn [step]. rewrite Hc. unfold remote_write. cbn [with_refctr n_connected n_wrote]. rewrite Hc, Hf.
+  cbn [fst with_wrote n_wrote n_refctr with_refctr]. split; reflexivity.
+Qed.
